@@ -13,6 +13,16 @@ def ok_value(case, impl):
 
 
 PROPS = {
+    "C05": {
+        "topics": ["bm"],
+        "nontrivial": lambda c, i: i != "panic" and "(set " in c or "(unpack " in c and "ok x" in i,
+        "rule": "bitmap histories (set/isset/len/pack/unpack/reset) for every block size 1..16 x both expansion modes x binary and hex encodings: "
+                "every single index in 1..4 blocks (+0, negative, one past), sampled pairs/triples with every bit read back (thorough: all pairs within two blocks for B<=2), "
+                "random packed bitmaps of 1..4 blocks with correct and corrupted continuation bits, truncation, all one-byte bitmaps, a 40-block chain, "
+                "states that are not a whole number of blocks; non-trivial = distinct history that sets a bit or unpacks successfully",
+        "trusted_base": COMMON_TB,
+        "assumptions": ["block size 1..16 bytes and a fixed-length prefixer (DESIGN.md section 2.1)"],
+    },
     "C16": {
         "topics": ["hdr"],
         "nontrivial": lambda c, i: i.startswith("ok") and not c.startswith("(hdr.set"),
